@@ -3,6 +3,7 @@ NEXT Next
 CONSTANTS
   BlockSize = 20
 INVARIANT Inv_EmittedWithoutError
+INVARIANT Inv_Utf16VariantEmitted
 INVARIANT Inv_ProgramWellFormed
 INVARIANT Inv_VMMatchesLikePattern
 INVARIANT Inv_VMMatchesLikePattern16
